@@ -622,6 +622,16 @@ func (e *enc) frameGoal(n, cur string) string {
 	_, locs := e.frameSpec()
 	init := e.getIn(e.initSt, n)
 	s := e.stateSort(n)
+	if strings.HasPrefix(s, "(Array ") && !strings.HasPrefix(s, "(Array Int ") {
+		// ghost state indexed by a non-reference sort (e.g. the file system: path -> content): every index outside the listed ones
+		inner := s[len("(Array "):]
+		isort := inner[:skipSexp(inner)]
+		var excl []string
+		for _, l := range locs[n] {
+			excl = append(excl, "(not (= fr.x "+l[0]+"))")
+		}
+		return "(forall ((fr.x " + isort + ")) (! (=> " + and(excl...) + " (= (select " + cur + " fr.x) (select " + init + " fr.x))) :pattern ((select " + cur + " fr.x))))"
+	}
 	if !strings.HasPrefix(s, "(Array Int ") {
 		return eq(cur, init)
 	}
@@ -846,7 +856,7 @@ func (e *enc) appendOp(c *ssa.CallCommon, args []Val, site ssa.Instruction) Val 
 	} else {
 		e.assumeHere(implies(fitsC, "(forall ((i Int)) (! (= (select "+arr+" i) (ite (and (>= i (+ (s-off "+s.T+") (s-len "+s.T+"))) (< i (+ (s-off "+s.T+") "+newLen+"))) "+elemAt("(- i (+ (s-off "+s.T+") (s-len "+s.T+")))")+" (select "+oldArr+" i))) :pattern ((select "+arr+" i))))"))
 	}
-	e.assumeHere(implies(not(fitsC), "(forall ((i Int)) (! (=> (and (<= 0 i) (< i "+newLen+")) (= (select "+arr+" i) (ite (< i (s-len "+s.T+")) (select "+oldArr+" (+ (s-off "+s.T+") i)) "+elemAt("(- i (s-len "+s.T+"))")+"))) :pattern ((select "+arr+" i))))"))
+	e.assumeHere(implies(not(fitsC), "(forall ((i Int)) (! (=> (and (<= 0 i) (< i "+newLen+")) (= (select "+arr+" i) (ite (< i (s-len "+s.T+")) (select "+oldArr+" (sidx (s-off "+s.T+") i)) "+elemAt("(- i (s-len "+s.T+"))")+"))) :pattern ((select "+arr+" i))))"))
 	e.set(mem, sto(oldMem, arr, ptr))
 	term := "(mk-slice " + ptr + " " + off + " " + newLen + " " + newCap + ")"
 	return Val{T: e.define(name, "Slice", term), S: "Slice", GT: c.Args[0].Type()}
